@@ -552,6 +552,11 @@ func genStatFile(t *rapid.T, scale float64, constant bool, baseOff int, many, co
 							}
 						}
 					}
+					if vcase.OneIn(t, 80, "int64edge") {
+						// plain integers around 2^63, where an integer fast path has to give up
+						fmt.Fprintf(&sb, " %s %s", rapid.SampledFrom([]string{"9223372036854775807", "9223372036854775808", "9223372036854775809", "922337203685477580"}).Draw(t, "edgeint"), u)
+						continue
+					}
 					fmt.Fprintf(&sb, " %v %s", val, u)
 				}
 				sb.WriteString("\n")
